@@ -466,6 +466,11 @@ class Process:
             # APIs which don't use _raise_if_pid_reused().
             msg = "process no longer exists and its PID has been reused"
             raise NoSuchProcess(self.pid, self._name, msg=msg)
+        if self._gone:
+            # The process was found gone: from now on is_running() won't
+            # look at the PID again, which in the meantime may be reused
+            # by another process.
+            raise NoSuchProcess(self.pid, self._name)
 
     @property
     def pid(self):
